@@ -157,7 +157,13 @@ def package_uses_locks_or_threads() -> list[str]:
     """Names of chartparse source files that mention a concurrency primitive (§2.3 safety net)."""
     import re
 
-    pat = re.compile(r"\b(threading|_thread|multiprocessing|asyncio|concurrent)\b")
+    # blocking primitives only: a thread that is pre-empted while it holds one would deadlock a
+    # baton scheduler.  threading.local / current_thread and the like are harmless and keep
+    # line-level pre-emption on.
+    pat = re.compile(r"(\b(RLock|Lock|Condition|Semaphore|BoundedSemaphore|Barrier|allocate_lock)\s*\("
+                     r"|threading\.Event\s*\(|\bimport\s+(_thread|multiprocessing|asyncio|queue)\b"
+                     r"|\bfrom\s+(_thread|multiprocessing|asyncio|queue|concurrent)\b"
+                     r"|\bconcurrent\.futures\b)")
     hits = []
     for name in sorted(os.listdir(PKG_DIR)):
         if name.endswith(".py"):
